@@ -173,17 +173,6 @@ func c15KBin(v ssa.Value, op token.Token) (ssa.Value, int64, bool) {
 	return nil, 0, false
 }
 
-// c15EdgeConds: branch conditions known to hold when control passes pred -> succ.
-func c15EdgeConds(pred, succ *ssa.BasicBlock) []condEdge {
-	out := controllingConds(pred)
-	if n := len(pred.Instrs); n > 0 {
-		if iff, ok := pred.Instrs[n-1].(*ssa.If); ok && pred.Succs[0] != pred.Succs[1] {
-			out = append(out, condEdge{iff.Cond, pred.Succs[0] == succ, iff})
-		}
-	}
-	return out
-}
-
 var c15Flip = map[token.Token]token.Token{token.LSS: token.GTR, token.GTR: token.LSS, token.LEQ: token.GEQ, token.GEQ: token.LEQ, token.EQL: token.EQL, token.NEQ: token.NEQ}
 var c15Neg = map[token.Token]token.Token{token.LSS: token.GEQ, token.GEQ: token.LSS, token.GTR: token.LEQ, token.LEQ: token.GTR, token.EQL: token.NEQ, token.NEQ: token.EQL}
 
@@ -351,6 +340,115 @@ func c15Edges(ph *ssa.Phi) []ssa.Value {
 		return nil
 	}
 	return ph.Edges
+}
+
+// c15Counter: ph is a loop counter phi{0, self+1}.
+func c15Counter(ph *ssa.Phi) bool {
+	zero, step := 0, 0
+	for _, ed := range c15Edges(ph) {
+		if k, isk := constOf(ed); isk && k == 0 {
+			zero++
+		} else if x, k, ok := c15KBin(ed, token.ADD); ok && x == ssa.Value(ph) && k == 1 {
+			step++
+		}
+	}
+	return ph != nil && zero >= 1 && step >= 1 && zero+step == len(ph.Edges)
+}
+
+// c15Bind maps parameters of helpers that were opened to the arguments passed.
+type c15Bind map[*ssa.Parameter]ssa.Value
+
+func (b c15Bind) at(v ssa.Value) ssa.Value {
+	for i := 0; i < 16; i++ {
+		p, ok := v.(*ssa.Parameter)
+		if !ok {
+			break
+		}
+		a, ok := b[p]
+		if !ok {
+			break
+		}
+		v = a
+	}
+	return v
+}
+
+// open strips conversions, replaces bound parameters by their arguments and steps into
+// single-return chess-3 helpers (binding their parameters) until none of these applies.
+func (b c15Bind) open(v ssa.Value) ssa.Value {
+	for i := 0; i < 16; i++ {
+		w := stripConv(b.at(v))
+		if call, ok := w.(*ssa.Call); ok {
+			if callee := call.Call.StaticCallee(); callee != nil && isOwn(callee) && callee.Blocks != nil && len(callee.Params) == len(call.Call.Args) {
+				if rs := c15Returns(callee); len(rs) == 1 && len(rs[0].Results) == 1 {
+					for j, q := range callee.Params {
+						b[q] = call.Call.Args[j]
+					}
+					w = returnedValue(rs[0], 0)
+				}
+			}
+		}
+		if w == v {
+			break
+		}
+		v = w
+	}
+	return v
+}
+
+// c15ResolveOn follows phis entered on path p (as seen from path position use) to the value
+// selected by the edge taken; loop counters stay symbolic.
+func c15ResolveOn(p *bpath, v ssa.Value, use int) ssa.Value {
+	for i := 0; i < 256; i++ {
+		ph, ok := v.(*ssa.Phi)
+		if !ok || c15Counter(ph) {
+			return v
+		}
+		at, on := p.pos[ph.Block()]
+		if !on || at == 0 || at > use {
+			return v
+		}
+		use = at - 1
+		found := false
+		for k, pr := range ph.Block().Preds {
+			if pr == p.Blocks[at-1] {
+				v, found = ph.Edges[k], true
+				break
+			}
+		}
+		if !found {
+			return v
+		}
+	}
+	return v
+}
+
+// c15Decide evaluates `x op y` when both are constants, or one is a loop counter (>= 0)
+// and the other a constant that settles the comparison.
+func c15Decide(op token.Token, x, y ssa.Value) (holds, decided bool) {
+	kx, cx := constOf(x)
+	ky, cy := constOf(y)
+	_, isCx := x.(*ssa.Const)
+	_, isCy := y.(*ssa.Const)
+	cx, cy = cx && isCx, cy && isCy
+	cmp := func(a, b int64) bool {
+		return map[token.Token]bool{token.EQL: a == b, token.NEQ: a != b, token.LSS: a < b, token.LEQ: a <= b, token.GTR: a > b, token.GEQ: a >= b}[op]
+	}
+	if _, known := c15Neg[op]; !known {
+		return false, false
+	}
+	if cx && cy {
+		return cmp(kx, ky), true
+	}
+	px, _ := x.(*ssa.Phi)
+	py, _ := y.(*ssa.Phi)
+	if cx && c15Counter(py) { // k op counter  ==  counter flip(op) k
+		op, ky, cy, px = c15Flip[op], kx, true, py
+	}
+	if cy && c15Counter(px) && ky < 0 { // counter >= 0 > ky
+		return cmp(0, ky), true
+	}
+	return false, false
 }
 
 func c15Pow2(x int64) bool { return x > 0 && x&(x-1) == 0 }
@@ -1319,32 +1417,9 @@ func c15R4(e *c15Env) {
 	fnn := "transp.(*Table).Insert#"
 	kb := e.k["partialKeyBits"]
 	n := 0
-	// the loop counter: phi{0, self+1} that indexes bucket.entries
-	var iPhi *ssa.Phi
-	allInstrs(in.fn, func(i ssa.Instruction) {
-		ia, ok := i.(*ssa.IndexAddr)
-		if !ok {
-			return
-		}
-		ph, isPhi := ia.Index.(*ssa.Phi)
-		if b, ok := e.fa(ia.X, "bucket", "entries"); !ok || b != in.bucket || !isPhi {
-			return
-		}
-		zero, step := 0, 0
-		for _, ed := range ph.Edges {
-			if k, isk := constOf(ed); isk && k == 0 {
-				zero++
-			} else if x, k, ok := c15KBin(ed, token.ADD); ok && x == ph && k == 1 {
-				step++
-			}
-		}
-		if zero >= 1 && step >= 1 && zero+step == len(ph.Edges) {
-			iPhi = ph
-		}
-	})
 	// signature comparison: partialKey(laneWord) ==/!= sig
 	var sigCond *ssa.BinOp
-	var lane ssa.Value
+	var lane0 ssa.Value
 	nCmp := 0
 	allInstrs(in.fn, func(i ssa.Instruction) {
 		b, ok := i.(*ssa.BinOp)
@@ -1353,7 +1428,7 @@ func c15R4(e *c15Env) {
 		}
 		for _, o := range [][2]ssa.Value{{b.X, b.Y}, {b.Y, b.X}} {
 			if o[0] == in.sig && e.isT(o[1].Type(), "partialKey") {
-				sigCond, lane = b, stripConv(o[1])
+				sigCond, lane0 = b, o[1]
 				nCmp++
 			}
 		}
@@ -1380,52 +1455,64 @@ func c15R4(e *c15Env) {
 		b, okK := e.loadOf(call.Call.Args[0], "bucket", "pKeys")
 		c.Check(okK && b == in.bucket && call.Call.Args[1] == in.sig, rule, fnn+"lane-walk", call.Pos(), "the matching lane is match64(bucket.pKeys, signature) of the bucket being stored into and the signature being stored")
 		n++
-	} else if sigCond == nil || nCmp != 1 || iPhi == nil {
-		c.Undec(rule, fnn+"match-lane", in.fn.Pos(), "no unique comparison of the signature with `partialKey(lane word)` inside a loop `i = 0; i++` over bucket.entries[i] (%d comparisons), and no single match64 call", nCmp)
+	} else if sigCond == nil || nCmp != 1 {
+		c.Undec(rule, fnn+"match-lane", in.fn.Pos(), "no unique comparison of the signature with `partialKey(lane word)` (%d comparisons), and no single match64 call", nCmp)
 		return
 	} else {
-		matchIdx, sigVal, sigPos = iPhi, sigCond, sigCond.Op == token.EQL
-	}
-	if matchIdx == ssa.Value(iPhi) {
-		if x, k, ok := c15KBin(lane, token.AND); ok && k == 1<<uint(kb)-1 { // explicit lane mask before the truncating conversion
-			lane = stripConv(x)
-		}
-		// the lane word compared while entry i is examined is lane i: either a running copy of
+		// the lane word compared while entry i is examined must be lane i: either a running copy of
 		// pKeys shifted by partialKeyBits on every i++, or pKeys >> i*partialKeyBits read directly
+		// (possibly through a helper: parameters are bound to the arguments)
+		bind := c15Bind{}
+		lane := bind.open(lane0)
+		if x, k, ok := c15KBin(lane, token.AND); ok && k == 1<<uint(kb)-1 { // explicit lane mask before the truncating conversion
+			lane = bind.open(x)
+		}
+		var iPhi *ssa.Phi
 		walk, known := false, false
-		if keys, ok := lane.(*ssa.Phi); ok && keys.Block() == iPhi.Block() {
-			walk, known = true, true
-			shifts := 0
-			for j, ed := range keys.Edges {
-				_, first := constOf(iPhi.Edges[j]) // edge entering the loop: i = 0
-				if b, ok := e.loadOf(ed, "bucket", "pKeys"); ok && b == in.bucket && first {
-					continue
+		if keys, ok := lane.(*ssa.Phi); ok && keys.Parent() == in.fn {
+			for _, instr := range keys.Block().Instrs { // the counter stepping with the running copy
+				if ph, isPhi := instr.(*ssa.Phi); isPhi && c15Counter(ph) && len(ph.Edges) == len(keys.Edges) {
+					iPhi = ph
 				}
-				if x, k, ok := c15KBin(ed, token.SHR); ok && x == keys && k == kb && !first {
-					shifts++
-					continue
-				}
-				walk = false
 			}
-			walk = walk && shifts >= 1
-		} else if sh, ok := lane.(*ssa.BinOp); ok && sh.Op == token.SHR {
-			if b, ok := e.loadOf(sh.X, "bucket", "pKeys"); ok && b == in.bucket {
-				cnt := stripConv(sh.Y)
-				r, stride, okM := c15KBin(cnt, token.MUL)
-				if !okM {
-					if r2, k, okS := c15KBin(cnt, token.SHL); okS {
-						r, stride, okM = r2, 1<<uint(k), true
+			if iPhi != nil {
+				walk, known = true, true
+				shifts := 0
+				for j, ed := range keys.Edges {
+					_, first := constOf(iPhi.Edges[j]) // edge entering the loop: i = 0
+					if b, ok := e.loadOf(ed, "bucket", "pKeys"); ok && b == in.bucket && first {
+						continue
 					}
+					if x, k, ok := c15KBin(ed, token.SHR); ok && x == ssa.Value(keys) && k == kb && !first {
+						shifts++
+						continue
+					}
+					walk = false
 				}
-				if okM && stripConv(r) == ssa.Value(iPhi) {
-					walk, known = stride == kb, true
+				walk = walk && shifts >= 1
+			}
+		} else if sh, ok := lane.(*ssa.BinOp); ok && sh.Op == token.SHR {
+			if a, okL := c15Load(bind.open(sh.X)); okL {
+				if fa, isFA := a.(*ssa.FieldAddr); isFA {
+					if _, isKeys := e.fa(fa, "bucket", "pKeys"); isKeys && bind.at(fa.X) == in.bucket {
+						cnt := bind.open(sh.Y)
+						r, stride, okM := c15KBin(cnt, token.MUL)
+						if !okM {
+							if r2, k, okS := c15KBin(cnt, token.SHL); okS {
+								r, stride, okM = r2, 1<<uint(k), true
+							}
+						}
+						if ph, isPhi := bind.open(r).(*ssa.Phi); okM && isPhi && ph.Parent() == in.fn && c15Counter(ph) {
+							iPhi, walk, known = ph, stride == kb, true
+						}
+					}
 				}
 			}
 		}
 		bound := int64(-1)
 		allInstrs(in.fn, func(i ssa.Instruction) {
 			v, isV := i.(ssa.Value)
-			if !isV {
+			if !isV || iPhi == nil {
 				return
 			}
 			if x, k, ok := c15KBin(v, token.LSS); ok {
@@ -1437,13 +1524,14 @@ func c15R4(e *c15Env) {
 			}
 		})
 		if !known || bound < 0 {
-			c.Undec(rule, fnn+"lane-walk", sigCond.Pos(), "the lane word compared with the signature is neither a copy of bucket.pKeys shifted once per iteration nor bucket.pKeys >> i*k, or the loop bound is not a constant")
+			c.Undec(rule, fnn+"lane-walk", sigCond.Pos(), "the lane word compared with the signature is neither a copy of bucket.pKeys shifted once per iteration of a counting loop nor bucket.pKeys >> i*k of a loop counter i, or the loop bound is not a constant")
 			return
 		}
 		c.Check(walk && bound == e.k["bucketEntryCnt"], rule, fnn+"lane-walk", sigCond.Pos(),
 			"while entry i is examined the signature is compared with lane i of bucket.pKeys (stride partialKeyBits = %d, starting at lane 0 with i = 0); the loop bound (%d) is bucketEntryCnt (%d)", kb, bound, e.k["bucketEntryCnt"])
 		n++
-	} // lane-by-lane comparison
+		matchIdx, sigVal, sigPos = iPhi, sigCond, sigCond.Op == token.EQL
+	}
 	isTarget := func(v ssa.Value) bool { // &bucket.entries[i]
 		ia, ok := v.(*ssa.IndexAddr)
 		if !ok || ia.Index != matchIdx {
@@ -1452,55 +1540,75 @@ func c15R4(e *c15Env) {
 		b, ok := e.fa(ia.X, "bucket", "entries")
 		return ok && b == in.bucket
 	}
-	has := func(conds []condEdge, pred func(condEdge) bool) bool {
-		for _, ce := range conds {
-			if pred(ce) {
-				return true
+
+	// Every block-simple path from the entry of Insert to the store of the entry, with phis and
+	// conditions resolved along the path (loop counters stay symbolic, 0 <= i):
+	//  - a path on which the signature matched at lane i overwrites entry i,
+	//    any other path overwrites a lane index of the bucket (constant in range / a loop counter);
+	//  - a move other than the parameter is stored only on a matched path with a null move
+	//    passed in, and is the move of entry i.
+	type arrival struct {
+		matched, smNull bool
+		repl, move      ssa.Value
+	}
+	var arrivals []arrival
+	storeBlk := in.entStore.Block()
+	done := enumBlockPaths(in.fn.Blocks[0], func(_, to *ssa.BasicBlock) bool { return to == storeBlk }, 200000, func(p *bpath) {
+		if p.End != "arrive" || p.Arrive != storeBlk {
+			return
+		}
+		ar := arrival{}
+		for _, pc := range p.Conds {
+			if pc.V == sigVal {
+				ar.matched = pc.True == sigPos
+			}
+			b, ok := pc.V.(*ssa.BinOp)
+			if !ok {
+				continue
+			}
+			x, y := c15ResolveOn(p, b.X, pc.At), c15ResolveOn(p, b.Y, pc.At)
+			if holds, decided := c15Decide(b.Op, x, y); decided && holds != pc.True {
+				return // contradictory path
+			}
+			if px, op, k, ok := c15RelK(condEdge{Cond: b, True: pc.True}); ok && op == token.EQL && k == 0 && c15ResolveOn(p, px, pc.At) == ssa.Value(in.sm) {
+				ar.smNull = true
 			}
 		}
-		return false
-	}
-	sigTrue := func(ce condEdge) bool { // the branch taken means "lane i holds the signature"
-		cond, pos := ce.Cond, ce.True
-		for u, ok := cond.(*ssa.UnOp); ok && u.Op == token.NOT; u, ok = cond.(*ssa.UnOp) {
-			cond, pos = u.X, !pos
+		last := len(p.Blocks) - 1
+		at := func(v ssa.Value) ssa.Value {
+			if ph, ok := v.(*ssa.Phi); ok && ph.Block() == storeBlk {
+				for k, pr := range storeBlk.Preds {
+					if pr == p.Blocks[last] {
+						return c15ResolveOn(p, ph.Edges[k], last)
+					}
+				}
+				return v
+			}
+			return c15ResolveOn(p, v, last)
 		}
-		return cond == sigVal && pos == sigPos
+		ar.repl, ar.move = at(in.repl), at(in.stored["Move"])
+		arrivals = append(arrivals, ar)
+	})
+	if !done || len(arrivals) == 0 {
+		c.Undec(rule, fnn+"replace-on-match", in.entStore.Pos(), "the paths from the entry of Insert to the store of the entry could not be enumerated (%d found)", len(arrivals))
+		return
 	}
-
-	// replace: on a signature match the matching lane is the one overwritten
-	rp, isPhi := in.repl.(*ssa.Phi)
-	if !isPhi {
-		c.Undec(rule, fnn+"replace-on-match", in.entStore.Pos(), "index of the overwritten entry is not a join of the loop's outcomes")
-	} else {
+	{
 		onMatch, good, detail, unk := 0, true, "", ""
-		for i, ed := range rp.Edges {
-			if has(c15EdgeConds(rp.Block().Preds[i], rp.Block()), sigTrue) {
+		for _, ar := range arrivals {
+			if ar.matched {
 				onMatch++
-				if ed != matchIdx {
+				if ar.repl != matchIdx {
 					good, detail = false, "after a signature match at lane i the entry overwritten is not entry i: the bucket then holds the signature twice and LookUp may return the stale one"
 				}
 				continue
 			}
-			isCounter := func(v ssa.Value) bool { // phi{0, self+1}: a lane index of some loop over the bucket
-				ph, ok := v.(*ssa.Phi)
-				for _, ed := range c15Edges(ph) {
-					k, isk := constOf(ed)
-					x, one, isStep := c15KBin(ed, token.ADD)
-					ok = ok && (isk && k == 0 || isStep && x == v && one == 1)
+			if k, isk := constOf(ar.repl); isk {
+				if _, isC := ar.repl.(*ssa.Const); isC && (k < 0 || k >= e.k["bucketEntryCnt"]) {
+					good, detail = false, fmt.Sprintf("without a signature match entry %d is overwritten, which is outside the bucket", k)
 				}
-				return ok
-			}
-			for v := range backSlice(ed, sliceOpts{Stop: isCounter}) {
-				switch x := v.(type) {
-				case *ssa.Phi:
-				case *ssa.Const:
-					if k, _ := constOf(x); k < 0 || k >= e.k["bucketEntryCnt"] {
-						good, detail = false, fmt.Sprintf("victim index constant %d outside the bucket", k)
-					}
-				default:
-					unk = "the victim index on the no-match path is computed, not one of the examined lane indices"
-				}
+			} else if ph, isPhi := ar.repl.(*ssa.Phi); !isPhi || !c15Counter(ph) {
+				unk = "the victim index on a no-match path is computed, not one of the examined lane indices"
 			}
 		}
 		if onMatch == 0 {
@@ -1509,10 +1617,9 @@ func c15R4(e *c15Env) {
 		if good && unk != "" {
 			c.Undec(rule, fnn+"replace-on-match", in.entStore.Pos(), "%s", unk)
 		} else {
+			c.Check(good, rule, fnn+"replace-on-match", in.entStore.Pos(), "entry overwritten: lane i on every path with a signature match at lane i (%d of %d paths to the store), otherwise a lane index of the bucket. %s", onMatch, len(arrivals), detail)
 			n++
 		}
-		c.Check(good || unk != "", rule, fnn+"replace-on-match", in.entStore.Pos(), "entry overwritten: lane i on a signature match at lane i (%d such paths), otherwise one of the examined lanes. %s", onMatch, detail)
-
 	}
 
 	// pKeys update: clear and set the lane of the overwritten entry
@@ -1778,38 +1885,31 @@ func c15R4(e *c15Env) {
 
 	// kept move: only from the signature-matching entry, only when the new move is null
 	kept := 0
-	var leaves func(v ssa.Value, conds []condEdge, seen map[ssa.Value]bool)
-	leaves = func(v ssa.Value, conds []condEdge, seen map[ssa.Value]bool) {
-		if ph, ok := v.(*ssa.Phi); ok {
-			if seen[v] {
-				return
+	{
+		good, unk := true, ""
+		var pos token.Pos = in.stored["Move"].Pos()
+		for _, ar := range arrivals {
+			if ar.move == ssa.Value(in.sm) {
+				continue
 			}
-			seen[v] = true
-			for i, ed := range ph.Edges {
-				leaves(ed, append(append([]condEdge{}, conds...), c15EdgeConds(ph.Block().Preds[i], ph.Block())...), seen)
+			kept++
+			t, okT := e.loadOf(ar.move, "entry", "Move")
+			if !okT {
+				unk = "the move stored is neither the parameter nor a load of an entry's move"
+				continue
 			}
-			return
+			pos = ar.move.Pos()
+			good = good && isTarget(t) && ar.matched && ar.smNull
 		}
-		if v == in.sm {
-			return
+		key := fnn + "kept-move"
+		switch {
+		case unk != "":
+			c.Undec(rule, key, pos, "%s", unk)
+		case kept > 0:
+			c.Check(good, rule, key, pos, "a move other than the one passed in is stored only on paths where the signature matched at lane i and the new move is null, and it is the move of entry i (%d such paths); a victim's move belongs to a different key", kept)
+			n++
 		}
-		kept++
-		key := fmt.Sprintf("%skept-move@%d", fnn, kept)
-		t, okT := e.loadOf(v, "entry", "Move")
-		if !okT {
-			c.Undec(rule, key, v.Pos(), "the move stored is neither the parameter nor a load of an entry's move")
-			return
-		}
-		fromMatch := isTarget(t) && has(controllingConds(v.(ssa.Instruction).Block()), sigTrue)
-		smNull := has(conds, func(ce condEdge) bool {
-			x, op, k, ok := c15RelK(ce)
-			return ok && x == in.sm && op == token.EQL && k == 0
-		})
-		c.Check(fromMatch && smNull, rule, key, v.Pos(),
-			"a move other than the one passed in is stored only if it is read from entry i under a signature match at lane i (%v) and only when the new move is null (%v); a victim's move belongs to a different key", fromMatch, smNull)
-		n++
 	}
-	leaves(in.stored["Move"], nil, map[ssa.Value]bool{})
 	c.Floor(rule+".kept-move", kept, 1, "paths keeping the old hash move")
 	c.Floor(rule, n, 5, "lane bookkeeping obligations (walk, replace, pKeys, keep-deeper conditions, kept move)")
 }
